@@ -182,7 +182,12 @@ func execWrite(b *bytex.BufferX, it *item) error {
 	case oLimStr:
 		return b.WriteLimitString(it.limit, string(it.b))
 	case oRaw, oRawN, oRawZ:
-		b.Write(it.b)
+		// the slice handed over is the caller's own and is reused right after the call
+		own := append([]byte(nil), it.b...)
+		b.Write(own)
+		for i := range own {
+			own[i] = 0x5A
+		}
 	case oVarU64:
 		b.WriteVarU64(it.u)
 	case oVarI64:
